@@ -277,7 +277,19 @@ class Machine:
                 sub_env.update(bound)
                 sub = Machine(callee_cfg, self.ops, self.max_steps, self.max_outcomes, self.resolver, self.depth + 1)
                 out: List[Tuple[Node, Dict[str, Any]]] = []
-                for oc in sub.run(sub_env):
+                try:
+                    sub_outcomes = sub.run(sub_env)
+                except AnalysisError:
+                    # the helper cannot be evaluated over this domain (e.g. a loop over values the
+                    # domain does not model): treat it as an opaque call
+                    sub_outcomes = None
+                if sub_outcomes is None:
+                    hook = _hook(self.ops, "visit")
+                    if hook:
+                        e = dict(e)
+                        hook(node, e, self.ev)
+                    return self._follow(node, e, ("n", "stop"))
+                for oc in sub_outcomes:
                     e2 = dict(e)
                     for key, val in oc.env.items():
                         if key.startswith("@") and key not in ("@return", "@callvals", "@handling"):
